@@ -27,7 +27,7 @@ CHECK = {
              "oracle and every input vertex position present. simplify: own polyhedron (box, prism, frustum/cone, star prism, "
              "hull, tetrahedron, box+-box, drilled box, two components; random pose/scale; optional affine properties) with "
              "conditioning minSin >= 0.1, Refine(n) (redundant vertices known), then Simplify(t) or SetTolerance(t) with t <= "
-             "1e-3 * (minEdge/n) * minSin (also t = 0, t < epsilon, t < tolerance, t < 0). distinct_nontrivial = distinct "
+             "1e-3 * (minEdge/n) * minSin (0.02 * (minEdge/n) * minSin when minSin >= 0.7) (also t = 0, t < epsilon, t < tolerance, t < 0). distinct_nontrivial = distinct "
              "signatures: one per pattern tuple that passed; (op, producing operation, log4 output size, n, has-properties) for "
              "flat refinements that decided >=1 point and grew the mesh; (op, smoother, producing operation, size) for smooth "
              "refinements that grew the mesh; (op, polyhedron family, n, decade of t/tMax, has-properties) for simplifications "
@@ -73,7 +73,7 @@ CHECK = {
         "flat refinement: volume within 1e-12*sum(edge products), area within 1e-13*sum(perimeter)*S (>=100x the rounding "
         "of double barycentric placement), classification points closer than 1e-9*S to the surface or with non-integral "
         "solid-angle sums are skipped",
-        "simplification: t <= 1e-3*(minEdge/n)*minSin where minSin is the smallest sine over dihedral angles of non-flat "
+        "simplification: t <= 1e-3*(minEdge/n)*minSin (0.02*(minEdge/n)*minSin for polyhedra with minSin >= 0.7) where minSin is the smallest sine over dihedral angles of non-flat "
         "edges and angles between feature edges at a vertex of the polyhedron (polyhedra with minSin < 0.1 are skipped); "
         "Hausdorff distance is sampled (all output vertices -> original surface; polyhedron corners, <=400 refined "
         "vertices, 60 random face points -> output) with bound max(t, tolerance) + 1e-11*S",
